@@ -336,6 +336,17 @@ def run(ctx):
     r10reccount.check(ctx, dprog, "R10.reccount", ("ncmpidiff.c", "cdfdiff.c"))
     ctx.rule("R10.recstride", "record r of a variable is addressed at begin + r * (the file's record size)")
     r10recstride.check(ctx, ctx.program(groups=["lib", "util"]), "R10.recstride", min_instances=6)
+    from rules import r4decodeorder
+    ctx.rule("R4.decodeorder", "the tools' private header decoders (ncoffsets ncmpii_hdr_get_NC, ncvalidator / cdfdiff val_get_NC): no "
+             "field of the header object the decoder derives is read before the write that derives it (own reads and callees to depth 3)")
+    uprog = ctx.program(groups=["util"])
+    ndec = 0
+    for nm in ("ncmpii_hdr_get_NC", "val_get_NC"):
+        for f in uprog.fns(nm):
+            ctx.functions_analysed.add((f.unit.name, f.name))
+            r4decodeorder.check(ctx, uprog, f, "R4.decodeorder", 10)
+            ndec += 1
+    ctx.require(ndec >= 2, "R4.decodeorder: only %d tool decoders found" % ndec)
     total = 0
     for uname, tool in (("ncmpidiff.c", "ncmpidiff"), ("cdfdiff.c", "cdfdiff")):
         unit = [u for n, u in dprog.units.items() if n.endswith(uname)]
